@@ -120,6 +120,7 @@ def gen_world(rng, size: str = "normal") -> dict:
     # ---- protocluster clumps -------------------------------------------------------------------
     slots_with_genes = sorted(by_slot)
     n_clumps = rng.choice([1, 2, 2, 3, 3, 4]) if size != "plasmid" else rng.choice([2, 3, 4])
+    n_clumps = min(n_clumps, len(slots_with_genes))
     anchors = set()
     if not circular:
         if rng.random() < 0.4:
@@ -168,9 +169,32 @@ def gen_world(rng, size: str = "normal") -> dict:
             areas.append((ext_start, ext_len))
             previous = (first, ncore)
 
+    ring_only = False
+    # a pair of protoclusters that together go once round a small ring, meeting away from the origin
+    if size == "plasmid" and rng.random() < 0.5 and len(slots_with_genes) >= 2:
+        k = rng.randrange(1, len(slots_with_genes))
+        g2, g1 = by_slot[slots_with_genes[k - 1]], by_slot[slots_with_genes[k]]
+        seam = g2["end"]
+        overlap = rng.choice([1, 50, 100])
+        short = rng.choice([250, 300, 400])
+        if g2["start"] >= seam - short and g1["end"] <= seam + length - short + overlap and g1["start"] >= seam:
+            if rng.random() < 0.7:      # nothing else on the ring
+                ring_only = True
+                protos, areas = [], []
+                for gene in genes:
+                    gene["core_products"] = []
+            for gene, arc in ((g1, (seam, length - short + overlap)), (g2, (seam - short, short))):
+                product = rng.choice(PRODUCTS)
+                if product not in gene["core_products"]:
+                    gene["core_products"].append(product)
+                protos.append({"core_arc": (gene["start"], gene["end"] - gene["start"]), "ext_arc": arc,
+                               "product": product, "rule": f"rule{len(protos)}", "nb": 100, "cutoff": 200,
+                               "sideloaded": False})
+                areas.append(arc)
+
     # ---- subregions ----------------------------------------------------------------------------
     subs = []
-    for _ in range(rng.choice([0, 0, 1, 1, 2, 3])):
+    for _ in range(0 if ring_only else rng.choice([0, 0, 1, 1, 2, 3])):
         if areas and rng.random() < 0.55:
             base_start, base_len = rng.choice(areas)
             start = base_start + rng.randrange(-150, max(1, base_len))
@@ -211,7 +235,7 @@ def gen_world(rng, size: str = "normal") -> dict:
     origin_kind = "none"
     if circular:
         kind = rng.random()
-        if kind < 0.45 and areas:
+        if kind < 0.40 and areas:
             a_start, a_len = rng.choice(areas)
             x = a_start + rng.randrange(0, a_len)
             origin_kind = "in-area"
